@@ -19,7 +19,9 @@ RULE = ("the C14 operation sequences (vault operations with and without LP colla
         "field by field; bucket = (last operation, outcome, #vaults with LP, #free positions, path kind)")
 TRUSTED = ["the TWAP geometric mean is an oracle value captured from the real calc_twap_price",
            "closed-form Uniswap v3 amounts (C07) are used by the independent valuation; they are compared with the code's 35-digit values at 1e-28"]
-ASSUMPTIONS = ["pool orientation token0 = WETH = quote; account quote token USD; account prices derived from the squeeth row (WETH, OSQTH*WETH)"]
+ASSUMPTIONS = ["pool orientation token0 = WETH = quote (and the flipped pool); account prices derived from the squeeth row (WETH, OSQTH*WETH), converted into the "
+               "account's quote token: USD (squeeth:account:same-quote), a stable coin with 1 USD = u of it, u in {0.97, 1.03, 2000, 0.000625, 1.0000001, 1}, or WETH "
+               "(squeeth:account:other-quote:u<1|u>1|u=1|pool-quote)"]
 
 TOL = F(1, 10 ** 28)
 
@@ -34,9 +36,33 @@ FIELDS = ["net_value", "collateral_amount", "collateral_value", "osqth_long_amou
           "osqth_net_amount", "collateral_ratio"]
 
 
-def observe_views(world):
+# The unit of a market's value.  SqueethMarket.quote_token is USD (its data's WETH column is the USD price of ETH, its oSQTH column is in ETH:
+# net value = coll·WETH − short·oSQTH·WETH is in USD); the pool market is quoted in WETH.  Besides the USD-quoted account (Squeeth same-quote,
+# pool other-quote) the account is valued quoted in a stable coin Q with 1 USD = u Q (Squeeth other-quote: × prices[USD] = u, pool: × prices[WETH]
+# = weth·u) and quoted in WETH (pool same-quote, Squeeth other-quote with prices[USD] = 1/weth; outside what check_backtest admits, but
+# get_account_status is a public method that does not ask).
+ACCT_QUOTES = [["USDC", "0.97"], ["DAI", "1.03"], ["USDT", "2000"], ["WETH", None], ["USDC", "0.000625"], ["FDUSD", "1"], ["USDC", "1.0000001"]]
+_acct_cycle = [0]
+
+
+def next_acct_quote():
+    _acct_cycle[0] += 1
+    return ACCT_QUOTES[_acct_cycle[0] % len(ACCT_QUOTES)]
+
+
+def acct_prices(acct_quote, w, o):
+    """the account's price row when it is quoted in Q: (quote token name, {token: Decimal})"""
+    q, u = acct_quote
+    if q == "WETH":
+        return q, {"WETH": D(1), "OSQTH": D(o), "USD": D(1) / D(w)}
+    u = D(u)
+    return q, {"WETH": D(w) * u, "OSQTH": D(o) * D(w) * u, "USD": u, q: D(1)}
+
+
+def observe_views(world, acct_quote=None):
     """what the three valuation entry points of the real code answer in the current state"""
     from demeter._typing import USD
+    from demeter import TokenInfo
     world.broker.quote_token = USD
     nf, w, o = world.cur()
     prices = {"WETH": w, "OSQTH": o * w}
@@ -58,6 +84,18 @@ def observe_views(world):
         obs["account_net_value"] = D(st.net_value)
     except Exception as ex:  # noqa: BLE001
         obs["account_err"] = type(ex).__name__
+    # the same account quoted in another token than the Squeeth market
+    obs["acct_quote"] = acct_quote = list(acct_quote) if acct_quote is not None else next_acct_quote()
+    if D(w) > 0:
+        qname, p2 = acct_prices(acct_quote, w, o)
+        obs["prices_other"] = p2
+        world.broker.quote_token = world.weth if qname == "WETH" else TokenInfo(qname.lower(), 6)
+        try:
+            obs["account_other_net_value"] = D(world.broker.get_account_status(p2).net_value)
+        except Exception as ex:  # noqa: BLE001
+            obs["account_other_err"] = f"{type(ex).__name__}({str(ex)[:60]})"
+        finally:
+            world.broker.quote_token = USD
     return obs
 
 
@@ -116,8 +154,27 @@ def oracle(ctx, state, env, envj, tw, to, cur, obs, replay, last):
     if "account_net_value" in obs and "balance" in obs:
         wallet = sum((L.fr(b) * (weth if n == "WETH" else mark_usd) for n, b in state["wallet"]), F(0))
         total = wallet + want["net_value"] + uni_want * weth
+        ctx.case("squeeth:account:same-quote")
         if not close(obs["account_net_value"], total, wallet + coll * weth + short * mark_usd + uni_want * weth):
             ctx.violate("squeeth.account.net_value", f"after {last}: account net value {obs['account_net_value']}, independent valuation {float(total):.15g}", replay)
+    # ---- the account quoted in another token than the Squeeth market: every holding once, at the ACCOUNT's price of its token
+    if "prices_other" in obs and "balance" in obs and "uni_net_value" in obs:
+        qn, u = obs["acct_quote"]
+        P = {k: L.fr(v) for k, v in obs["prices_other"].items()}
+        uclass = "pool-quote" if qn == "WETH" else ("u=1" if P["USD"] == 1 else ("u<1" if P["USD"] < 1 else "u>1"))
+        ctx.case(f"squeeth:account:other-quote:{uclass}:lp{min(sum(1 for _, v in state['vaults'] if v['nft']), 1)}:free{min(len(free), 1)}:short{int(short != 0)}")
+        if "account_other_err" in obs:
+            ctx.violate("squeeth.account.quote-conversion:raises", f"after {last}: account quoted in {qn} (prices {obs['prices_other']}): get_account_status raised "
+                        f"{obs['account_other_err']}", replay)
+        else:
+            wallet2 = sum((L.fr(b) * P[n] for n, b in state["wallet"]), F(0))
+            total2 = wallet2 + coll * P["WETH"] - short * P["OSQTH"] + uni_want * P["WETH"]
+            if not close(obs["account_other_net_value"], total2, abs(wallet2) + coll * P["WETH"] + short * P["OSQTH"] + uni_want * P["WETH"]):
+                ctx.violate("squeeth.account.quote-conversion", f"after {last}: account quoted in {qn}" + (f" with 1 USD = {u} {qn}" if u else "") +
+                            f", prices {({k: str(v) for k, v in obs['prices_other'].items()})}: get_account_status().net_value = "
+                            f"{obs['account_other_net_value']}, every holding at the account's prices is worth {float(total2):.15g} (wallet {float(wallet2):.12g}, "
+                            f"vault collateral {float(coll):.12g} WETH, short {float(short):.12g} oSQTH, free LP {float(uni_want):.12g} WETH; squeeth reports "
+                            f"{obs['balance']['net_value']} USD, the pool {obs['uni_net_value']} WETH)", replay)
     return idx
 
 
@@ -157,7 +214,7 @@ def sequence(ctx, pending, steps):
         tw, to = world.sq.get_twap_price(world.weth), world.sq.get_twap_price(world.osqth)
         cur = world.cur()
         obs = observe_views(world)
-        replay = {"spec": state, "env": dict(world.env), "after": last}
+        replay = {"spec": state, "env": dict(world.env), "after": last, "acct_quote": obs["acct_quote"]}
         oracle(ctx, state, world.env, envj, tw, to, cur, obs, replay, last)
         n_lp = sum(1 for _, v in state["vaults"] if v["nft"])
         n_free = sum(1 for _, p in state["positions"] if not p["transferred"])
@@ -179,7 +236,7 @@ def view_point(ctx, world, pending, last, tag):
     envj = L.snapshot_env(world)
     tw, to = world.sq.get_twap_price(world.weth), world.sq.get_twap_price(world.osqth)
     obs = observe_views(world)
-    replay = {"spec": state, "env": dict(world.env), "after": last}
+    replay = {"spec": state, "env": dict(world.env), "after": last, "acct_quote": obs["acct_quote"]}
     oracle(ctx, state, world.env, envj, tw, to, world.cur(), obs, replay, last)
     pending.append(({"fn": "views", "ctx": "py", "state": state, "env": envj}, obs, replay, last))
     ctx.case(f"{'flip:' if world.env.get('flip') else ''}{tag}:{last}", {"after": last})
@@ -309,7 +366,7 @@ def actuator_runs(ctx, pending):
         logging.disable(logging.NOTSET)
     for k, (state, env, envj, tw, to, cur, obs) in enumerate(seen):
         last = f"run-bar{min(k, 3)}"
-        replay = {"spec": state, "env": env, "after": f"actuator run, bar {k}"}
+        replay = {"spec": state, "env": env, "after": f"actuator run, bar {k}", "acct_quote": obs["acct_quote"]}
         oracle(ctx, state, env, envj, tw, to, cur, obs, replay, last)
         if k < len(act._account_status_list) and "account_net_value" in obs:
             rep_nv = D(act._account_status_list[k].net_value)
@@ -344,7 +401,7 @@ def replay(ctx: Ctx, case) -> bool:
     state = world.dump_state()
     envj = L.snapshot_env(world)
     tw, to = world.sq.get_twap_price(world.weth), world.sq.get_twap_price(world.osqth)
-    obs = observe_views(world)
+    obs = observe_views(world, case.get("acct_quote"))
     sub = Ctx(ctx.prop, ctx.tier, ctx.seed, False)
     oracle(sub, state, world.env, envj, tw, to, world.cur(), obs, case, case.get("after", "replay"))
     for v in sub.violations:
